@@ -2,7 +2,7 @@
 META = {
     "level": 'exploration',
     "technique": 'reference-bytearray oracle on the real sftpd.OverwriteableFileConsumer: exhaustive pairs of overwrites x 2-chunk download splits x relative positions on a 12-byte file, plus seeded histories of <=20 client ops interleaved with random download chunks',
-    "text": 'Executes the real OverwriteableFileConsumer (with a plain tempfile.TemporaryFile and with the real EncryptedTemporaryFile) as the SFTP file handle does: the harness plays the download producer (registerProducer/write/unregisterProducer/download_done) and the client (overwrite, set_current_size, read, when_done, close). Every read() result, get_current_size() and the temp-file contents at the moment the upload would read them (after when_done fired, and again after the last download chunk) are compared with a bytearray = original contents with the client ops applied in order. Thorough enumerates ALL ordered pairs of overwrites [a,b) within [0,14] on a 12-byte file x all 13 splits of the download into <=2 chunks x all 6 placements of the two overwrites before/between/after the chunks (complete); quick samples that space. Seeded histories add nested/adjacent/overlapping overwrites near the download frontier, truncation below/above the frontier, extension, writes beyond EOF, and reads straddling the frontier.',
+    "text": 'Executes the real OverwriteableFileConsumer (with a plain tempfile.TemporaryFile and with the real EncryptedTemporaryFile) as the SFTP file handle does: the harness plays the download producer (registerProducer/write/unregisterProducer/download_done) and the client (overwrite, set_current_size, read, when_done, close). Every read() result, get_current_size() and the temp-file contents at the moment the upload would read them (after when_done fired, and again after the last download chunk) are compared with a bytearray = original contents with the client ops applied in order. Thorough enumerates ALL ordered pairs of overwrites [a,b) within [0,14] on a 12-byte file x all 12 splits of the download into <=2 chunks x all 6 placements of the two overwrites before/between/after the chunks (complete); quick samples that space. Seeded histories add nested/adjacent/overlapping overwrites near the download frontier, truncation below/above the frontier, extension, writes beyond EOF, and reads straddling the frontier.',
     "note": 'Trusts the 20-line bytearray model and the virtual eventual-send queue (vf.env). Respects the class contract: no overwrite/set_current_size while a read Deferred is outstanding (the harness delivers download chunks until it fires); unwritten, not-yet-downloaded regions are only observed through read() (which waits) or after the download completed. Only successful downloads are modelled.',
 }
 LEVEL = "exploration"
@@ -119,8 +119,6 @@ class Driver(object):
         """Labelling aid only: which pending-overwrite records overlap with a smaller end."""
         heap = sorted(getattr(self.c, "overwrites", ()))
         for i, (s0, e0) in enumerate(heap):
-            if s0 >= next_downloaded:
-                break
             for (s1, e1) in heap[i + 1:]:
                 if s1 > e0:
                     break
@@ -303,7 +301,8 @@ def run_history(ck, sftpd, maker, orig, steps):
         names = [fr.name for fr in tb]
         where = "%s:%s" % (tb[-1].name, type(e).__name__)
         key = "consumer-raises"
-        if isinstance(e, TypeError) and "when_reached_or_failed" in names and "Deferred" in str(e):
+        if isinstance(e, TypeError) and "Deferred" in str(e) and \
+                ("when_reached_or_failed" in names or "_update_downloaded" in names or "download_done" in names):
             # two outstanding reads with the same `needed` offset: heapq compares the Deferreds
             key = "concurrent-reads-same-milestone-typeerror"
         problems = drv.problems + [(key, "unexpected %s in %s: %s" % (type(e).__name__, where, e))]
@@ -470,8 +469,9 @@ def run(ck):
     from allmydata.util.fileutil import EncryptedTemporaryFile
     sftpd.noisy = False
     ck.rule = ("(1) every ordered pair of overwrites [a,b) within [0,14] on the 12-byte file 'abcdefghijkl' x "
-               "13 splits of the download into <=2 chunks x 6 placements of the two overwrites before/between/after "
-               "the chunks (thorough: all 859,950; quick: a seed-rotated 1/k sample plus all pairs with split=12); "
+               "12 splits of the download into <=2 chunks x 6 placements of the two overwrites before/between/after "
+               "the chunks (thorough: all 793,800; quick: a seed-rotated 1/37 sample plus all 11,025 pairs placed before a "
+               "single-chunk download); "
                "(2) seeded histories of 1..20 client ops (overwrite nested/adjacent/straddling earlier writes and the "
                "download frontier, beyond-EOF writes, truncate below/above the frontier, extend, reads straddling the "
                "frontier or past EOF) interleaved with download chunks of random sizes and eventual-queue turns, on "
@@ -491,8 +491,7 @@ def run(ck):
     total = 0
     complete = True
     stride = 37 if ck.tier == "quick" else 1
-    enum_budget = 0.45 if ck.tier == "quick" else 0.80
-    t_enum_end = ck.time_left() * (1 - enum_budget)
+    t_enum_end = ck.time_left() * (0.3 if ck.tier == "quick" else 0.2)   # guard only
     for idx, (w1, w2, split, p1, p2) in enumerate(enum_cases(limit)):
         total += 1
         if not ck.mine(idx):
@@ -523,7 +522,7 @@ def run(ck):
 
     # ---- (2) seeded histories
     rng = ck.rng("c39-histories")
-    n = 100000
+    n = 18000 if ck.tier == "quick" else 60000      # fixed counts: deterministic per seed
     i = 0
     while i < n and not ck.out_of_time():
         i += 1
@@ -536,6 +535,8 @@ def run(ck):
         judge(drv, problems, "history", (mk[0], orig[:16], len(orig), repr(show_steps(steps))), steps, orig, mk[0],
               bool(kinds & {"ow", "size"}) and "chunk" in kinds)
     ck.extra["histories"] = i
+    if i < n:
+        ck.observe("history-count-cut-by-time-budget")
     ck.require_monitor("read-oracle", "final-contents-oracle", "current-size-oracle")
     ck.require_reach("read-deferred-pending", "read-waited-for-download", "nested-second-overwrite-pending",
                      "set-current-size", "done-before-last-chunk")
